@@ -118,8 +118,10 @@ func jsonBytes(r json.RawMessage) ([]byte, bool) {
 func fill(v reflect.Value, path string, f map[string]json.RawMessage) {
 	t := v.Type()
 	if t == reflect.TypeOf(time.Time{}) {
-		if n, ok := jsonU64(f[path]); ok {
-			v.Set(reflect.ValueOf(time.Unix(0, int64(n)).UTC()))
+		sec, ok1 := jsonU64(f[path+"#sec"])
+		nsec, ok2 := jsonU64(f[path+"#nsec"])
+		if ok1 || ok2 {
+			v.Set(reflect.ValueOf(time.Unix(int64(sec), int64(nsec)).UTC()))
 		}
 		return
 	}
@@ -229,9 +231,10 @@ func nativeNewCtx() sdk.Context {
 	}
 	name := key("ctx")
 	h := int64(rawU64named(name + ".height"))
-	ns := int64(rawU64named(name + ".timeNs"))
+	tsec := int64(rawU64named(name + ".timeSec"))
+	tnsec := int64(rawU64named(name + ".timeNsec"))
 	chain := "chain-" + strconv.FormatUint(rawU64named(name+".rev"), 10)
-	ctx := sdk.NewContext(cms, cmtproto.Header{Height: h, Time: time.Unix(0, ns).UTC(), ChainID: chain}, false, log.NewNopLogger())
+	ctx := sdk.NewContext(cms, cmtproto.Header{Height: h, Time: time.Unix(tsec, tnsec).UTC(), ChainID: chain}, false, log.NewNopLogger())
 	for _, r := range w.Reads {
 		k, _ := hex.DecodeString(r.Key)
 		v, _ := hex.DecodeString(r.Val)
